@@ -56,11 +56,22 @@ def verify(sid, wt, prop, full):
         demo_cmd = meta.get("demo_cmd", "")
         m = re.search(r"(\./[\w/.-]+|\s\.\s*$|\s\.$)", demo_cmd)
         target = None
-        for cand in re.findall(r"(?:^|\s)(\./[\w/.-]*|pkg/[\w/.-]+|cmd/[\w/.-]+)", first + " " + demo_cmd):
-            d = cand.rstrip("/.").lstrip("./") or "."
+        cands = re.findall(r"(?:^|\s)(\./[\w/.-]*|pkg/[\w/.-]+|cmd/[\w/.-]+)", first + " " + demo_cmd)
+        dirs = []
+        for cand in cands:
+            d = cand
+            if d.endswith(".go"):
+                d = os.path.dirname(d)
+            d = d.rstrip("/.").lstrip("./") or "."
             if os.path.isdir(os.path.join(scratch, d)):
+                dirs.append(d)
+        # a package directory named anywhere wins over the module root
+        for d in dirs:
+            if d != ".":
                 target = d
                 break
+        if target is None and dirs:
+            target = dirs[0]
         if target is None:
             target = "." if "module root" in first or "repository root" in first else os.path.dirname(files[0])
         dst = os.path.join(scratch, target, "seeded_demo_test.go")
@@ -88,6 +99,13 @@ def verify(sid, wt, prop, full):
             extra = ["./pkg/goDB/...", "./pkg/query/...", "./pkg/results/...", "./cmd/..."]
             tests = "go test -vet=off -count=1 -timeout 25m %s 2>&1 | grep -E '^(FAIL[[:space:]]+[a-z]|--- FAIL)' | grep -v 'TestResolveInConditional\\|TestTimeout\\|conditions/node\\|query/dns' | head -20" % " ".join(sorted(set(pkgs + extra)))
         rc3, out3 = sh("nice -n 5 " + tests, scratch, timeout=3000)
+        if out3.strip():
+            # timing-sensitive tests fail under load: re-run only the failing packages, one at a time
+            fp = sorted(set(re.findall(r"^FAIL\s+github.com/els0r/goProbe/v4/(\S+)", out3, re.M)))
+            log.append("first run failures (re-running these packages alone): %s" % out3.strip().replace("\n", " | "))
+            if fp:
+                rerun = "go test -vet=off -count=1 -p 1 -timeout 25m %s 2>&1 | grep -E '^(FAIL[[:space:]]+[a-z]|--- FAIL)' | grep -v 'TestResolveInConditional\\|TestTimeout\\|conditions/node\\|query/dns' | head -20" % " ".join("./" + x for x in fp)
+                rc3, out3 = sh(rerun, scratch, timeout=3000)
         log.append("repo tests with patch: failures=[%s]" % out3.strip().replace("\n", " | "))
         if out3.strip():
             return False, log
